@@ -218,6 +218,9 @@ func (st *Std) FoldExpr(e ast.Expr, s S) (constant.Value, bool) {
 	if tv, ok := info.Types[e]; ok && tv.Value != nil {
 		return tv.Value, true
 	}
+	if e == ast.Expr(EmptyStringLit) {
+		return constant.MakeString(""), true
+	}
 	switch x := e.(type) {
 	case *ast.Ident:
 		o := ObjOf(info, x)
@@ -394,6 +397,32 @@ func zeroRepr(t types.Type) (string, bool) {
 	return "", false
 }
 
+// isBoolDef: lhs is a tracked boolean local and rhs a comparison or a logical
+// combination (not a constant, not a bare call or variable).
+func (st *Std) isBoolDef(lhs, rhs ast.Expr, s S) bool {
+	info := st.F.Info()
+	o := ObjOf(info, lhs)
+	if o == nil || !st.trackable(o) {
+		return false
+	}
+	if b, ok := o.Type().Underlying().(*types.Basic); !ok || b.Info()&types.IsBoolean == 0 {
+		return false
+	}
+	if _, ok := st.FoldExpr(rhs, s); ok {
+		return false
+	}
+	switch r := ast.Unparen(rhs).(type) {
+	case *ast.BinaryExpr:
+		switch r.Op {
+		case token.EQL, token.NEQ, token.LSS, token.LEQ, token.GTR, token.GEQ, token.LAND, token.LOR:
+			return true
+		}
+	case *ast.UnaryExpr:
+		return r.Op == token.NOT
+	}
+	return false
+}
+
 // assign updates tracking for `lhs = rhs` (rhs may be nil for a multi-value
 // call result or an unknown value).
 func (st *Std) assign(s S, lhs ast.Expr, rhs ast.Expr, fromCall *ast.CallExpr, isErrPos bool, idx int) S {
@@ -460,6 +489,7 @@ func (st *Std) Client() Client {
 		states := st.execCalls(n, []S{s}, &cl)
 		var out []S
 		for _, x := range states {
+			var forked []S
 			switch y := n.(type) {
 			case *ast.AssignStmt:
 				if len(y.Rhs) == 1 && len(y.Lhs) > 1 {
@@ -469,6 +499,19 @@ func (st *Std) Client() Client {
 					}
 				} else if len(y.Lhs) == len(y.Rhs) {
 					if y.Tok == token.ASSIGN || y.Tok == token.DEFINE {
+						if len(y.Lhs) == 1 && st.isBoolDef(y.Lhs[0], y.Rhs[0], x) {
+							// `b := <condition>`: evaluate the condition now, over the rule's own
+							// atoms, and remember the outcome in b (a test moved into a local)
+							ts, fs := st.Eval.Eval(y.Rhs[0], x)
+							id := VarID(ObjOf(info, y.Lhs[0]))
+							for _, z := range ts {
+								forked = append(forked, st.assign(z, y.Lhs[0], nil, nil, false, 0).Set("v:"+id, "true"))
+							}
+							for _, z := range fs {
+								forked = append(forked, st.assign(z, y.Lhs[0], nil, nil, false, 0).Set("v:"+id, "false"))
+							}
+							break
+						}
 						for i, l := range y.Lhs {
 							x = st.assign(x, l, y.Rhs[i], nil, false, 0)
 						}
@@ -520,10 +563,15 @@ func (st *Std) Client() Client {
 				// range key/value definitions: forget
 				x = st.assign(x, y, nil, nil, false, 0)
 			}
-			if st.OnNode != nil {
-				out = append(out, st.OnNode(n, x)...)
-			} else {
-				out = append(out, x)
+			if forked == nil {
+				forked = []S{x}
+			}
+			for _, x := range forked {
+				if st.OnNode != nil {
+					out = append(out, st.OnNode(n, x)...)
+				} else {
+					out = append(out, x)
+				}
 			}
 		}
 		if _, isRet := n.(*ast.ReturnStmt); !isRet && st.ShouldInline != nil {
